@@ -88,8 +88,9 @@ type c36Ev struct {
 	Parent uint64 `json:"parent,omitempty"`
 	Kind   string `json:"kind,omitempty"` // task kind / milestone kind
 	What   string `json:"what,omitempty"`
-	Loc    string `json:"loc,omitempty"` // explicit task location; "" = derived by tracing.StartTask
-	AID    uint64 `json:"aid,omitempty"` // tag / milestone id
+	Loc    string `json:"loc,omitempty"`   // explicit task location; "" = derived by tracing.StartTask
+	AID    uint64 `json:"aid,omitempty"`   // tag / milestone id
+	Reset  bool   `json:"reset,omitempty"` // end: emitted through tracing.EndTaskOnReset (a reset path's blanket end)
 }
 
 type c36Case struct {
@@ -106,6 +107,10 @@ const (
 	sigPlaceholder = "recorded-untraced:annotated-before-StartTask+StartTracing"
 	// same root, the task is never started at all and EndTask is called for it
 	sigGhost = "recorded-never-started:annotated+StartTracing+EndTask"
+	// a task that started and ended outside every tracing window, a later
+	// StartTracing, and then a second EndTask for the same id (as the reset
+	// helpers emit): the finished task must stay unrecorded
+	sigDupEndResurrects = "recorded-untraced:ended-while-off+later-StartTracing+duplicate-EndTask"
 )
 
 type c36Ann struct {
@@ -125,6 +130,11 @@ type c36Task struct {
 	endedUnstarted   bool // EndTask arrived for it though it never started
 	placeholder      bool // mentioned by an annotation while not started (and no EndTask since)
 	ghostBug         bool // was poisoned when an EndTask arrived though it never started
+	onAfterEnd       bool // a StartTracing ran after the task's (first) EndTask
+	dupEnds          int  // EndTasks that arrived after the first one
+	dupAfterOn       bool // a duplicate EndTask arrived after a StartTracing that followed the first end
+	dupAfterOnOn     bool // ... and tracing was on when it arrived
+	dupAfterOnOff    bool // ... and tracing was off (again) when it arrived
 	tagsReq, tagsOpt []c36Ann
 	msReq, msOpt     []c36Ann
 }
@@ -138,6 +148,15 @@ type c36Stats struct {
 	preStartAnn, postEndAnn, endUnknown, redundant   bool
 	poisonedStarted, ghostEnd, tagsRecorded, derived bool
 	zeroLenRecorded, neverStartedAnn                 bool
+
+	// duplicate / blanket ends (README "Tearing down in-flight tasks on reset")
+	dupEnd, dupSameInstant, dupLater, dupThird       bool
+	dupWhileOn, dupWhileOff, dupViaReset             bool
+	dupOfTraced, dupOfUntracedNoOn, dupAfterPostAnn  bool
+	dupRecordedOnce, dupNotRecorded                  bool
+	trigWhileOn, trigWhileOff, trigTouch             bool
+	trigTasks                                        int
+	endUnknownViaReset, firstEndViaReset, resetBurst bool
 }
 
 func expectedLoc(ev c36Ev) string {
@@ -194,7 +213,7 @@ func judge36On(c c36Case, be backend36) (vs []c34Verdict, st c36Stats) {
 			tracing.CollectTrace(d, tracer)
 			doms = append(doms, d)
 		}
-		for _, ev := range c.Events {
+		for i, ev := range c.Events {
 			clk.now = timing.VTimeInPicoSec(ev.T)
 			switch ev.Op {
 			case "on":
@@ -205,6 +224,9 @@ func judge36On(c c36Case, be backend36) (vs []c34Verdict, st c36Stats) {
 							t.markedByOn = true
 						}
 						t.overlap = true
+					} else if t.started && t.ended {
+						// a finished task: nothing may change for it any more
+						t.onAfterEnd = true
 					} else if !t.started && t.placeholder {
 						t.poisoned = true
 					}
@@ -238,13 +260,56 @@ func judge36On(c c36Case, be backend36) (vs []c34Verdict, st c36Stats) {
 					st.derived = true
 				}
 			case "end":
-				tracing.EndTask(doms[ev.Dom], tracing.TaskEnd{ID: ev.ID})
+				if ev.Reset {
+					tracing.EndTaskOnReset(doms[ev.Dom], ev.ID)
+				} else {
+					tracing.EndTask(doms[ev.Dom], tracing.TaskEnd{ID: ev.ID})
+				}
+				if i > 0 && ev.Reset && c.Events[i-1].Op == "end" && c.Events[i-1].Reset && c.Events[i-1].T == ev.T {
+					st.resetBurst = true
+				}
 				t := tasks[ev.ID]
 				switch {
 				case t == nil:
 					st.endUnknown = true
+					st.endUnknownViaReset = st.endUnknownViaReset || ev.Reset
 				case t.started && !t.ended:
 					t.ended, t.e = true, ev.T
+					st.firstEndViaReset = st.firstEndViaReset || ev.Reset
+				case t.started && t.ended:
+					// a duplicate end: the task ended at its first EndTask and there
+					// is "no such task" any more, so this one is a no-op (README,
+					// reset helpers). The model changes nothing; classes only.
+					t.dupEnds++
+					st.dupEnd = true
+					st.dupThird = st.dupThird || t.dupEnds >= 2
+					st.dupViaReset = st.dupViaReset || ev.Reset
+					if ev.T == t.e {
+						st.dupSameInstant = true
+					} else {
+						st.dupLater = true
+					}
+					if on {
+						st.dupWhileOn = true
+					} else {
+						st.dupWhileOff = true
+					}
+					if len(t.tagsOpt)+len(t.msOpt) > 0 {
+						st.dupAfterPostAnn = true
+					}
+					switch {
+					case t.overlap:
+						st.dupOfTraced = true
+					case t.onAfterEnd:
+						t.dupAfterOn = true
+						if on {
+							t.dupAfterOnOn = true
+						} else {
+							t.dupAfterOnOff = true
+						}
+					default:
+						st.dupOfUntracedNoOn = true
+					}
 				case !t.started:
 					// EndTask of an id that was only ever mentioned by annotations
 					t.endedUnstarted = true
@@ -378,11 +443,21 @@ func judge36On(c c36Case, be backend36) (vs []c34Verdict, st c36Stats) {
 			// the task and a window meet only in one instant and the event order
 			// puts the task outside: not determined by the statement
 			st.edgeTouch = true
+			if t.dupAfterOn {
+				st.trigTouch = true
+			}
 		default:
+			if t.dupAfterOn {
+				st.trigTasks++
+				st.trigWhileOn = st.trigWhileOn || t.dupAfterOnOn
+				st.trigWhileOff = st.trigWhileOff || t.dupAfterOnOff
+			}
 			if len(rows) > 0 {
 				sig := "recorded-untraced"
 				if t.poisoned {
 					sig = sigPlaceholder
+				} else if t.dupAfterOn {
+					sig = sigDupEndResurrects
 				}
 				fail(sig, "task %d [%d,%d] never ran while tracing was on (windows %v) but has a trace row %v", id, t.s, t.e, wins, rows[0])
 				continue
@@ -390,10 +465,17 @@ func judge36On(c c36Case, be backend36) (vs []c34Verdict, st c36Stats) {
 		}
 		if len(rows) == 0 {
 			st.notRecorded++
+			if t.dupEnds > 0 {
+				st.dupNotRecorded = true
+			}
 			continue
 		}
 		recorded[id] = true
 		st.recorded++
+		if t.dupEnds > 0 {
+			// exactly one row (checked above); its end time is the first end's (below)
+			st.dupRecordedOnce = true
+		}
 		if t.markedByOn {
 			st.markedInFlight = true
 		}
@@ -560,7 +642,7 @@ type rawStep struct {
 func genRawStep(t *rapid.T) rawStep {
 	r := rawStep{
 		Dt: rapid.SampledFrom([]uint64{0, 0, 0, 0, 1, 1, 2, 7, 1000, 1 << 30}).Draw(t, "dt"),
-		Op: rapid.IntRange(0, 19).Draw(t, "op"),
+		Op: rapid.IntRange(0, 23).Draw(t, "op"),
 	}
 	for i := range r.Sel {
 		r.Sel[i] = rapid.IntRange(0, 59).Draw(t, "sel")
@@ -580,6 +662,10 @@ func genC36(rt *rapid.T, steer bool) c36Case {
 	ghosts := []uint64{9000, 9001}
 	ghostAnnotated := map[uint64]bool{}
 	poisoned := map[uint64]bool{}
+	// the walk's own view of which tasks ran while tracing was on; it only
+	// biases the choice of ids for duplicate ends (the judgement is the model's)
+	traced := map[uint64]bool{}
+	var cold, armed []uint64 // ended without ever running while tracing was on; armed: a StartTracing followed
 	emit := func(ev c36Ev) { ev.T = now; c.Events = append(c.Events, ev) }
 	poison := func() {
 		for _, id := range reserved {
@@ -588,6 +674,11 @@ func genC36(rt *rapid.T, steer bool) c36Case {
 		for id := range ghostAnnotated {
 			poisoned[id] = true
 		}
+		for _, id := range open {
+			traced[id] = true
+		}
+		armed = append(armed, cold...)
+		cold = nil
 	}
 	toggle := func() {
 		if on {
@@ -597,6 +688,29 @@ func genC36(rt *rapid.T, steer bool) c36Case {
 			poison()
 		}
 		on = !on
+	}
+	// the first (real) end of the open task at index j
+	endOpen := func(j, dom int, reset bool) {
+		id := open[j]
+		open = append(open[:j], open[j+1:]...)
+		ended = append(ended, id)
+		if !traced[id] {
+			cold = append(cold, id)
+		}
+		emit(c36Ev{Op: "end", ID: id, Dom: dom, Reset: reset})
+	}
+	unknownID := func(k int) uint64 { return uint64(8000 + k%3) }
+	// a further end of an id that already ended: a no-op for the tracer. An
+	// ended id that was annotated after its end is a placeholder in the tracer
+	// (like the ghosts): a steered case leaves it alone once a StartTracing saw it
+	dupEnd := func(id uint64, dom int, reset bool, alt int) {
+		if steer && poisoned[id] {
+			id = unknownID(alt)
+		} else {
+			delete(ghostAnnotated, id)
+			delete(poisoned, id)
+		}
+		emit(c36Ev{Op: "end", ID: id, Dom: dom, Reset: reset})
 	}
 	if rapid.Bool().Draw(rt, "onAtStart") {
 		toggle()
@@ -630,6 +744,7 @@ func genC36(rt *rapid.T, steer bool) c36Case {
 		}
 		emit(ev)
 		open = append(open, id)
+		traced[id] = on
 	}
 	reserve := func() uint64 {
 		id := nextID
@@ -642,7 +757,9 @@ func genC36(rt *rapid.T, steer bool) c36Case {
 		case k <= 5 && len(open) > 0:
 			return open[r.Sel[1]%len(open)]
 		case k == 6 && len(ended) > 0:
-			return ended[r.Sel[1]%len(ended)]
+			id := ended[r.Sel[1]%len(ended)]
+			ghostAnnotated[id] = true // the tracer now holds a never-started placeholder for it
+			return id
 		case k == 7:
 			g := ghosts[r.Sel[1]%len(ghosts)]
 			ghostAnnotated[g] = true
@@ -671,11 +788,7 @@ func genC36(rt *rapid.T, steer bool) c36Case {
 				startTask(r)
 				break
 			}
-			j := r.Sel[0] % len(open)
-			id := open[j]
-			open = append(open[:j], open[j+1:]...)
-			ended = append(ended, id)
-			emit(c36Ev{Op: "end", ID: id, Dom: r.Sel[4] % 2})
+			endOpen(r.Sel[0]%len(open), r.Sel[4]%2, false)
 		case op <= 10:
 			emit(c36Ev{Op: "tag", ID: target(r), AID: nextAID, Dom: r.Sel[4] % 2,
 				What: []string{"hit", "miss"}[r.Sel[5]%2]})
@@ -711,9 +824,9 @@ func genC36(rt *rapid.T, steer bool) c36Case {
 				break
 			}
 			toggle()
-		default:
+		case op <= 19:
 			// EndTask of an id that is not running
-			id := uint64(8000 + r.Sel[1]%3)
+			id := unknownID(r.Sel[1])
 			if r.Sel[0]%2 == 1 {
 				g := ghosts[r.Sel[2]%len(ghosts)]
 				if !(steer && poisoned[g]) {
@@ -722,7 +835,43 @@ func genC36(rt *rapid.T, steer bool) c36Case {
 					delete(poisoned, g)
 				}
 			}
-			emit(c36Ev{Op: "end", ID: id, Dom: r.Sel[4] % 2})
+			emit(c36Ev{Op: "end", ID: id, Dom: r.Sel[4] % 2, Reset: r.Sel[5]%4 == 3})
+		case op <= 21:
+			// a second (third, ...) EndTask for an id that already ended;
+			// preferably one that ended without ever running while tracing was
+			// on and has seen a StartTracing since
+			var id uint64
+			switch k := r.Sel[0] % 5; {
+			case k <= 1 && len(armed) > 0:
+				id = armed[r.Sel[1]%len(armed)]
+			case k == 2 && len(ended) > 0:
+				id = ended[len(ended)-1] // the latest end: often the same instant
+			case len(ended) > 0:
+				id = ended[r.Sel[1]%len(ended)]
+			default:
+				id = unknownID(r.Sel[1])
+			}
+			dupEnd(id, r.Sel[4]%2, r.Sel[5]%2 == 1, r.Sel[1])
+		case op == 22:
+			// a reset path's blanket: EndTaskOnReset, in one instant, for a few
+			// ids it "could hold": open ones (their real end), finished ones
+			// (duplicates) and ones that never existed
+			for i, n := 0, 2+r.Sel[0]%3; i < n; i++ {
+				sel := r.Sel[1+i]
+				switch {
+				case sel%3 == 0 && len(open) > 0:
+					endOpen(sel/3%len(open), r.Sel[5]%2, true)
+				case sel%3 == 1 && len(ended) > 0:
+					dupEnd(ended[sel/3%len(ended)], r.Sel[5]%2, true, sel)
+				default:
+					emit(c36Ev{Op: "end", ID: unknownID(sel / 3), Dom: r.Sel[5] % 2, Reset: true})
+				}
+			}
+		default:
+			// a short task: started and ended within 0..2 ps
+			startTask(r)
+			now += []uint64{0, 0, 1, 2}[r.Sel[0]%4]
+			endOpen(len(open)-1, r.Sel[4]%2, false)
 		}
 	}
 	if rapid.Bool().Draw(rt, "endAll") {
@@ -732,11 +881,39 @@ func genC36(rt *rapid.T, steer bool) c36Case {
 				r.Dt = 1
 			}
 			now += r.Dt
-			j := r.Sel[0] % len(open)
-			emit(c36Ev{Op: "end", ID: open[j], Dom: r.Sel[4] % 2})
-			open = append(open[:j], open[j+1:]...)
+			endOpen(r.Sel[0]%len(open), r.Sel[4]%2, false)
 			if r.Sel[1]%6 == 5 {
 				toggle()
+			}
+		}
+	}
+	// final blanket reset (EndTaskOnReset for most ids ever started, in start-id
+	// order, in one instant), half of them after making sure tracing is on: every
+	// task that finished before that StartTracing gets a duplicate end behind it
+	if fr := rapid.IntRange(0, 3).Draw(rt, "finalReset"); fr >= 2 {
+		dts := []uint64{0, 1, 1, 7}
+		if fr == 3 && !on {
+			now += rapid.SampledFrom(dts).Draw(rt, "dtOn")
+			toggle()
+		}
+		now += rapid.SampledFrom(dts).Draw(rt, "dtReset")
+		ids := append(append([]uint64{}, ended...), open...)
+		sort.Slice(ids, func(i, j int) bool { return ids[i] < ids[j] })
+		pick := rapid.SliceOfN(rapid.IntRange(0, 7), len(ids), len(ids)).Draw(rt, "blanket")
+		for i, id := range ids {
+			if pick[i] == 0 {
+				continue // this one is not held by the resetting component
+			}
+			j := -1
+			for k, o := range open {
+				if o == id {
+					j = k
+				}
+			}
+			if j >= 0 {
+				endOpen(j, pick[i]%2, true)
+			} else {
+				dupEnd(id, pick[i]%2, true, pick[i])
 			}
 		}
 	}
@@ -771,6 +948,27 @@ func c36Classes(c c36Case, st c36Stats) (bool, []string) {
 	add(st.derived, "derived-location")
 	add(st.zeroLenRecorded, "recorded:zero-length")
 	add(st.recorded > 0 && st.notRecorded > 0, "recorded+not-recorded")
+	// duplicate / blanket ends
+	add(st.dupEnd, "dup-end")
+	add(st.trigTasks > 0, "dup-end:of-task-ended-while-off,after-later-StartTracing(judged-absent)")
+	add(st.trigTasks >= 2, "dup-end:of-task-ended-while-off,after-later-StartTracing(judged-absent),>=2-tasks")
+	add(st.trigWhileOn, "dup-end:of-task-ended-while-off,after-later-StartTracing,inside-that-or-a-later-window")
+	add(st.trigWhileOff, "dup-end:of-task-ended-while-off,after-later-StartTracing+StopTracing")
+	add(st.trigTouch, "dup-end:of-task-ended-while-off,after-StartTracing-in-the-end-instant(presence-not-asserted)")
+	add(st.dupOfUntracedNoOn, "dup-end:of-untraced-task,no-StartTracing-since-its-end")
+	add(st.dupOfTraced, "dup-end:of-traced-task")
+	add(st.dupRecordedOnce, "dup-end:task-recorded-once-with-first-end-time")
+	add(st.dupNotRecorded, "dup-end:task-not-recorded")
+	add(st.dupWhileOn, "dup-end:inside-window")
+	add(st.dupWhileOff, "dup-end:outside-window")
+	add(st.dupSameInstant, "dup-end:same-instant-as-first-end")
+	add(st.dupLater, "dup-end:later-than-first-end")
+	add(st.dupThird, "dup-end:third-or-later-end")
+	add(st.dupAfterPostAnn, "dup-end:after-annotation-after-first-end")
+	add(st.dupViaReset, "dup-end:via-EndTaskOnReset")
+	add(st.firstEndViaReset, "first-end:via-EndTaskOnReset")
+	add(st.endUnknownViaReset, "end-of-unknown-id:via-EndTaskOnReset")
+	add(st.resetBurst, "reset-burst(>=2-EndTaskOnReset-in-one-instant)")
 	add(len(c.Steer) > 0, "steered")
 	add(len(c.Events) >= 20, "events>=20")
 	add(len(c.Events) >= 40, "events>=40")
@@ -780,9 +978,10 @@ func c36Classes(c c36Case, st c36Stats) (bool, []string) {
 
 func TestC36DBTracer(t *testing.T) {
 	s := kit.Begin(t, "C36", "dbtracer",
-		"histories of 1..60 steps (+ closing ends) over a fake clock (dt in {0,1,2,7,1e3,2^30}): StartTask (new id or an id already mentioned by a tag/milestone; parent 0/open/any; 5 kinds incl. req_in/req_out/pipeline; derived or explicit location; two domains), EndTask of a random open task, tags and milestones (bursts in one instant, identical repeats) on open/ended/not-yet-started/never-started ids, StartTracing/StopTracing alternating (1/60 of the toggles redundant), EndTask of unknown and of annotated-but-never-started ids, then Terminate (half the time with tasks in flight, sometimes while tracing). Real DBTracer on a capturing DataRecorder, events through tracing.StartTask/... + CollectTrace. Oracle: event-order model. Non-trivial: >=2 windows, a recorded task that was in flight at a StartTracing, and an ended task that is not recorded")
+		"histories of 1..60 steps (+ closing ends) over a fake clock (dt in {0,1,2,7,1e3,2^30}): StartTask (new id or an id already mentioned by a tag/milestone; parent 0/open/any; 5 kinds incl. req_in/req_out/pipeline; derived or explicit location; two domains), EndTask of a random open task, tags and milestones (bursts in one instant, identical repeats) on open/ended/not-yet-started/never-started ids, StartTracing/StopTracing alternating (1/60 of the toggles redundant), EndTask of unknown and of annotated-but-never-started ids, duplicate EndTask/EndTaskOnReset of ids that already ended (biased to tasks that ended without running in a window and have seen a StartTracing since; also the latest end, same instant), reset bursts (2-4 EndTaskOnReset in one instant over open/ended/unknown ids), short tasks (0..2 ps), in half of the histories a final blanket EndTaskOnReset over 7/8 of all started ids (half of those after forcing tracing on), then Terminate (half the time with tasks in flight, sometimes while tracing). Real DBTracer on a capturing DataRecorder, events through tracing.StartTask/... + CollectTrace. Oracle: event-order model. Non-trivial: >=2 windows, a recorded task that was in flight at a StartTracing, and an ended task that is not recorded")
 	defer s.End()
-	s.Assume("task ids are unique; every task is started at most once; nothing is emitted after Terminate; times < 2^53 (the trace tables store float64)")
+	s.Assume("task ids are unique; every task is started at most once (README and code do not define reuse of an id after its EndTask, so no StartTask is generated for an ended id); nothing is emitted after Terminate; times < 2^53 (the trace tables store float64)")
+	s.Assume("a task ends at its first EndTask; further EndTask/EndTaskOnReset calls for the id are the README's 'no such task' no-ops: no row, no second row, end time unchanged (an id annotated but never started, or annotated before its StartTask, is never blanket-ended before that StartTask)")
 	s.Assume("a task that meets a window only in a single instant and lies outside it in event order (EndTask then StartTracing at the same time, StopTracing then StartTask at the same time) is not judged for presence; the reverse orders are judged as traced")
 	s.Assume("tags/milestones emitted after the task's EndTask may or may not be recorded; of several milestones of one task at one instant any one may be the recorded one")
 	s.Assume("segments are judged only in histories where StartTracing/StopTracing strictly alternate")
